@@ -2,16 +2,16 @@
 # tools/confirm_seed.sh <ID> [full] : confirm a sub-agent's seeded change in its scratch worktree /tmp/seed/wt_<ID>
 #  - patch applies to /repo HEAD (checked in the worktree), demo exits 0 on /repo/src and 1 on the worktree
 #  - with "full": the whole pinned test suite in the worktree; failing set must equal the baseline's
-id="$1"; wt=/tmp/seed/wt_$id; out=/tmp/seed/out_$id
+id="$1"; S="${SEEDSET:-}"; wt=/tmp/seed/wt${S}_$id; out=/tmp/seed/out${S}_$id
 cd "$wt" || exit 2
-git diff > /tmp/seed/confirm_$id.diff
-git apply --check -R /tmp/seed/confirm_$id.diff && echo "worktree diff is a clean patch ($(wc -l < /tmp/seed/confirm_$id.diff) lines)"
-cmp -s /tmp/seed/confirm_$id.diff $out/patch.diff && echo "patch.diff == worktree diff" || echo "NOTE patch.diff differs from worktree diff"
-(cd $out && PYTHONPATH=/repo/src timeout 900 /venv/bin/python demo.py > /tmp/seed/confirm_$id.demo0.log 2>&1; echo "demo on unchanged tree: rc=$?")
-(cd $out && PYTHONPATH=$wt/src timeout 900 /venv/bin/python demo.py > /tmp/seed/confirm_$id.demo1.log 2>&1; echo "demo on changed tree: rc=$?")
+git diff > /tmp/seed/confirm${S}_$id.diff
+git apply --check -R /tmp/seed/confirm${S}_$id.diff && echo "worktree diff is a clean patch ($(wc -l < /tmp/seed/confirm${S}_$id.diff) lines)"
+cmp -s /tmp/seed/confirm${S}_$id.diff $out/patch.diff && echo "patch.diff == worktree diff" || echo "NOTE patch.diff differs from worktree diff"
+(cd $out && PYTHONPATH=/repo/src timeout 900 /venv/bin/python demo.py > /tmp/seed/confirm${S}_$id.demo0.log 2>&1; echo "demo on unchanged tree: rc=$?")
+(cd $out && PYTHONPATH=$wt/src timeout 900 /venv/bin/python demo.py > /tmp/seed/confirm${S}_$id.demo1.log 2>&1; echo "demo on changed tree: rc=$?")
 if [ "$2" = full ]; then
   cd $wt && PYTHONPATH=$wt/src /venv/bin/python -m pytest -q -p no:cacheprovider --timeout=900 -x --co -q tests >/dev/null 2>&1
-  PYTHONPATH=$wt/src /venv/bin/python -m pytest -q -p no:cacheprovider --timeout=900 tests -rf 2>&1 | grep '^FAILED\|^ERROR' | sed 's/ - .*//' | sed 's/^FAILED //; s/^ERROR //' | sed 's#/#.#g; s#\.py::#::#' | sort > /tmp/seed/confirm_$id.fail.txt
+  PYTHONPATH=$wt/src /venv/bin/python -m pytest -q -p no:cacheprovider --timeout=900 tests -rf 2>&1 | grep '^FAILED\|^ERROR' | sed 's/ - .*//' | sed 's/^FAILED //; s/^ERROR //' | sed 's#/#.#g; s#\.py::#::#' | sort > /tmp/seed/confirm${S}_$id.fail.txt
   sort /tmp/seed/baseline_fail.txt > /tmp/seed/baseline_sorted.txt
-  if diff -q /tmp/seed/confirm_$id.fail.txt /tmp/seed/baseline_sorted.txt >/dev/null; then echo "full suite: failing set == baseline ($(wc -l < /tmp/seed/confirm_$id.fail.txt))"; else echo "full suite: failing set DIFFERS"; diff /tmp/seed/confirm_$id.fail.txt /tmp/seed/baseline_sorted.txt | head; fi
+  if diff -q /tmp/seed/confirm${S}_$id.fail.txt /tmp/seed/baseline_sorted.txt >/dev/null; then echo "full suite: failing set == baseline ($(wc -l < /tmp/seed/confirm${S}_$id.fail.txt))"; else echo "full suite: failing set DIFFERS"; diff /tmp/seed/confirm${S}_$id.fail.txt /tmp/seed/baseline_sorted.txt | head; fi
 fi
